@@ -63,6 +63,14 @@ theorem continuity_run (s : Sess) (evs : List Ev) (hcfg : NoResetOptions s.cfg) 
 def replyBase (s : Sess) (m : InMsg) : Sess :=
   if !s.cfg.hbOverride then (match getInt m 108 with | .val h => s.setHb h | _ => s) else s
 
+/-- `logonReply` in terms of `replyBase`: the acceptor answers, unless the Logon is the answer to its own reset Logon -/
+theorem logonReply_base (s : Sess) (m : InMsg) (flag : Bool) :
+    logonReply s m flag =
+      if (!s.cfg.initiator) = true then
+        (if (flag && (replyBase s m).sentReset && (replyBase s m).st.loggedOn) = true then replyBase s m
+         else sendLogonRe (replyBase s m) flag m)
+      else s := rfl
+
 theorem logonMsg_141 (s : Sess) : (logonMsg s true).f.get? 141 = some "Y" := by
   unfold logonMsg mkOut Fields.get?
   simp
@@ -155,10 +163,14 @@ theorem logon_reset_received (s : Sess) (m : InMsg) (hi : s.cfg.initiator = fals
     rfl
   -- stage 3: the reply
   have hacc : (!s3.cfg.initiator) = true := by rw [c3, hi]; rfl
+  have hsr3 : (replyBase s3 m).sentReset = false := by
+    have : (replyBase s3 m).sentReset = s3.sentReset := by
+      unfold replyBase; split
+      · cases getInt m 108 <;> rfl
+      · rfl
+    rw [this, hs3]; exact a2.2.2.1.trans hsr
   have e3 : logonReply s3 m (logonResetFlag m) = sendLogonRe (replyBase s3 m) true m := by
-    unfold logonReply replyBase
-    rw [if_pos hacc, hf]
-    cases getInt m 108 <;> rfl
+    rw [logonReply_base, if_pos hacc, hf, hsr3]; rfl
   obtain ⟨b1, b2, b3, b4, b5⟩ := replyBase_frame s3 m
   obtain ⟨q1, q2, q3, q4, q5, q6, q7, q8, q9⟩ := sendLogonRe_reset (replyBase s3 m) m
   have hrel := relF_sendLogonRe (N := fun _ => True) (S := fun _ _ => True) (replyBase s3 m) true m (Or.inl triv_resetOK)
@@ -246,6 +258,62 @@ theorem logon_echo_no_reset (s : Sess) (m : InMsg) (hi : s.cfg.initiator = true)
           rw [this]
           exact h2.trans (relF_logonFinish _ m (by simp))
     · rw [he]; exact RelF.refl s
+
+/-- the same for the acceptor in an established session (after `fix:` cbdc133; ResetOnLogon off — with it every Logon
+    resets): the peer's answer to the reset Logon we sent ourselves neither resets again nor is answered with another
+    reset Logon — no `reset` observation, the store only moves forward -/
+theorem logon_echo_no_reset_acceptor (s : Sess) (m : InMsg) (hi : s.cfg.initiator = false) (hrol : s.cfg.resetOnLogon = false)
+    (hsr : s.sentReset = true) (hl : s.st.loggedOn = true) :
+    RelF (fun o => o ≠ Obs.reset) StoreMono s (handleLogon s m).1 := by
+  unfold handleLogon
+  split
+  · exact RelF.refl s
+  · generalize hs1 : (if (!s.cfg.initiator && s.cfg.refreshOnLogon) = true then s.emit Obs.refresh else s) = s1
+    have h1 : RelF (fun o => o ≠ Obs.reset) StoreMono s s1 := by
+      rw [← hs1]; split
+      · exact RelF.emit _ _ (by simp)
+      · exact RelF.refl s
+    have a1 : s1.cfg = s.cfg ∧ s1.sentReset = true ∧ s1.st = s.st := by
+      rw [← hs1]; split <;> exact ⟨rfl, hsr, rfl⟩
+    simp only []
+    rcases verifyAppImpl_cases s1 m with ⟨_, he⟩ | ⟨_, r, he⟩
+    · rw [he]
+      have h2 : RelF (fun o => o ≠ Obs.reset) StoreMono s (s1.emit (cbObs s1 m)) :=
+        h1.trans (RelF.emit _ _ (by unfold cbObs; split <;> simp))
+      have a2 : (s1.emit (cbObs s1 m)).cfg = s.cfg ∧ (s1.emit (cbObs s1 m)).sentReset = true ∧ (s1.emit (cbObs s1 m)).st = s.st := a1
+      generalize s1.emit (cbObs s1 m) = s2 at h2 a2
+      cases callbackVerdict m with
+      | some r => exact h2
+      | none =>
+        simp only []
+        have hno : ((if s2.cfg.initiator = true then false else s2.cfg.resetOnLogon) || logonResetFlag m && !s2.sentReset) = false := by
+          rw [a2.1, hi, hrol, a2.2.1]; simp
+        rw [hno]
+        simp only [Bool.false_eq_true, if_false]
+        have hv1 := verifySelect_noApp s2 m false true
+        generalize verifySelect s2 m false true false = r2 at hv1
+        obtain ⟨s4, o2⟩ := r2
+        simp only [] at hv1
+        subst hv1
+        cases o2 with
+        | some r => exact h2
+        | none =>
+          simp only []
+          have hb : (replyBase s4 m).sentReset = true ∧ (replyBase s4 m).st.loggedOn = true ∧
+              RelF (fun o => o ≠ Obs.reset) StoreMono s4 (replyBase s4 m) := by
+            unfold replyBase; split
+            · have hl4 : s4.st.loggedOn = true := by rw [a2.2.2]; exact hl
+              cases getInt m 108 <;> exact ⟨a2.2.1, hl4, RelF.of_eq rfl rfl rfl rfl rfl⟩
+            · exact ⟨a2.2.1, by rw [a2.2.2]; exact hl, RelF.refl _⟩
+          have hr : RelF (fun o => o ≠ Obs.reset) StoreMono s4 (logonReply s4 m (logonResetFlag m)) := by
+            rw [logonReply_base]
+            have : (!s4.cfg.initiator) = true := by rw [a2.1, hi]; rfl
+            rw [if_pos this, hb.1, hb.2.1]
+            cases logonResetFlag m
+            · exact hb.2.2.trans (relF_sendLogonRe _ false m (Or.inr rfl))
+            · exact hb.2.2
+          exact (h2.trans hr).trans (relF_logonFinish _ m (by simp))
+    · rw [he]; exact h1
 
 theorem shouldSendReset_fix40 (s : Sess) (h : s.cfg.bs = 0) : shouldSendReset s = false := by
   unfold shouldSendReset; rw [h]; rfl
